@@ -335,6 +335,31 @@ def fam_err(tier: str, rng: random.Random) -> Iterator[dict]:
                         yield p
 
 
+def fam_errbase(tier: str, rng: random.Random) -> Iterator[dict]:
+    """The configured error derives from BaseException directly (an "abort" signal); the same contract is violated
+    three times in a row and each call must be judged like the first."""
+    for kind in ("func", "method", "setter", "static", "init"):
+        for role in ("pre", "post", "inv"):
+            for form in ("inst", "factory", "class"):
+                for isasync in (False, True):
+                    if role == "inv":
+                        if kind in ("func", "static"):
+                            continue
+                        p = member_prog(kind, True, [], 0, 0, [], [], ["default"], False, isasync, ncalls=3,
+                                        tag="errbase-inv")
+                        if p is None:
+                            continue
+                        inv = p["con"][-1]
+                        inv["err"] = form
+                        inv["truth"] = [True, False, False]
+                    else:
+                        p = member_prog(kind, False, [[1]] if role == "pre" else [], 1 if role == "post" else 0, 0,
+                                        [False], [False], [form], False, isasync, ncalls=3, tag="errbase-" + role)
+                    if p is not None:
+                        p["errbase"] = True
+                        yield p
+
+
 def fam_order(tier: str, rng: random.Random) -> Iterator[dict]:
     """C16: several simultaneously falsy contracts at different positions / levels; all truth assignments."""
     shapes = [[[1, 2]], [[1, 2, 3]], [[1], [2]], [[1, 2], [3]], [[1], [2, 3]], [[1], [2], [3]], [[1, 2], [3, 4]]]
@@ -463,7 +488,7 @@ def fam_inv_sub(tier: str, rng: random.Random) -> Iterator[dict]:
     """
     for base_on in (["CALL"], ["SETATTR"], ["CALL", "SETATTR"], ["SETATTR", "CALL"], ["ALL"]):
         for sub_on in ([], ["CALL"], ["SETATTR"]):
-            for super_pos in ("first", "last", "never", "noinit"):
+            for super_pos in ("first", "last", "never", "noinit", "then_method", "method_then"):
                 for base_sets in (2, 1):
                     cons = []
                     inv1, oncall1, onset1 = [], [], []
@@ -489,6 +514,11 @@ def fam_inv_sub(tier: str, rng: random.Random) -> Iterator[dict]:
                            Fn("method", 1, False, ["inv"] if oncall2 else [], setst=0)]
                     if super_pos != "noinit":
                         script = [Op("call", 1, 1, 1)] if super_pos in ("first", "last") else []
+                        if super_pos == "then_method":
+                            # the base constructor, then a public method of the half-built object
+                            script = [Op("call", 1, 1, 1), Op("call", 2, 1, 1)]
+                        elif super_pos == "method_then":
+                            script = [Op("call", 2, 1, 1), Op("call", 1, 1, 1), Op("call", 2, 1, 1)]
                         fns.append(Fn("init", 2, False, ["init"], script=script, out=[RetV(0)] * 3, setst=1))
                         ctor = 3
                     else:
